@@ -104,6 +104,11 @@ Section tagfilter_cache.
     (match cache_literal (parse (fst q)) with Some l => l | None => fst q end, snd q).
   Definition tf_key_repaired (q : tfq) : list N * bool := q.
   Definition tf_keqb (a b : list N * bool) : bool := list_eqb (fst a) (fst b) && Bool.eqb (snd a) (snd b).
+  (* the expression the pruning path compiles for a filter: its value text after Init. Today that is the literal the pattern
+     was reduced to, re-read as an expression; repaired: the pattern itself *)
+  Definition tf_prune_tree_current (q : tfq) : re :=
+    match cache_literal (parse (fst q)) with Some l => parse l | None => parse (fst q) end.
+  Definition tf_prune_tree_repaired (q : tfq) : re := parse (fst q).
   (* the answer of a filter on a stored value, with whichever translation [mt] the index uses *)
   Definition tf_answer (mt : re -> option (list N) -> bool) (q : tfq) (v : option (list N)) : bool :=
     xorb (snd q) (mt (parse (fst q)) v).
